@@ -341,6 +341,28 @@ def finish(W, ob, ops, do_close=True, rounds=6):
         ops.append(op)
         return ob.do(op)
     c0 = W.clients[0]
+    # first let everybody catch up: connections come back, queued frames of every client are delivered
+    for _ in range(rounds * 40):
+        progressed = False
+        for cl in W.clients:
+            i = cl.index
+            if cl.conn is None and cl.svc.started and cl.svc.stopping is None:
+                emit(["open", i])
+                progressed = True
+            if cl.conn is not None and cl.conn.c2s:
+                emit(["c2s", i])
+                progressed = True
+            if cl.conn is not None and cl.conn.s2c and not (cl.svc.stopping is not None and not cl.svc.stopping.called):
+                emit(["s2c", i])
+                progressed = True
+            if cl.svc.stopping is not None and not cl.svc.stopping.called:
+                emit(["svc_stopped", i])
+                progressed = True
+            if cl.eq._calls:
+                emit(["turn", i])
+                progressed = True
+        if not progressed:
+            break
     if do_close and not any(op[:3] == ["api", 0, "close"] for op in ops):
         emit(["api", 0, "close"])
     for _ in range(rounds * 40):
@@ -409,7 +431,8 @@ def guided(seed, n_ops, profile, welcome_error=None, finish_run=False):
         ops = []
         code = "%d-%s" % (rng.choice([4, 17, 123]), rng.choice(WORDS))
         st = dict(code_started=False, closed=False, peer_started=[False] * (npeers + 1), sent=0, helper_stage=0)
-        st["t_close"] = rng.randrange(0, 8) if rng.random() < 0.15 else rng.randrange(int(n_ops * 0.3), n_ops + 1)
+        st["drop_budget"] = rng.choice([4, 8, 16]) if profile == "drops" else rng.choice([0, 1, 2, 4, 6])
+        st["t_close"] = rng.randrange(0, 8) if rng.random() < 0.15 else rng.randrange(int(n_ops * (0.6 if profile == "late-peer" else 0.3)), n_ops + 1)
         mode = {"allocate": "allocate", "input": "input"}.get(profile, "set")
 
         def emit(op):
@@ -434,8 +457,27 @@ def guided(seed, n_ops, profile, welcome_error=None, finish_run=False):
                 emit(["api", p, "set_code", code])
                 W.settle()
                 ops.append(["settle"])
+        # in most walks the peers are quick: whatever is queued for or by them is handled before the next step of
+        # client 0, so that the walk's randomness goes into client 0's own schedule (drops, reconnects with a full
+        # mailbox, sends and receives in S2_happy) instead of into waiting for the peer
+        eager = rng.random() < 0.6
         for _ in range(n_ops):
             c0 = W.clients[0]
+            if eager:
+                for _r in range(20):
+                    moved = False
+                    for p in range(1, npeers + 1):
+                        cp = W.clients[p]
+                        if cp.conn is None and cp.svc.started and cp.svc.stopping is None and st["peer_started"][p]:
+                            emit(["open", p]); moved = True
+                        if cp.conn is not None and cp.conn.c2s:
+                            emit(["c2s", p]); moved = True
+                        if cp.conn is not None and cp.conn.s2c and not (cp.svc.stopping is not None and not cp.svc.stopping.called):
+                            emit(["s2c", p]); moved = True
+                        if cp.eq._calls:
+                            emit(["turn", p]); moved = True
+                    if not moved:
+                        break
             choices = []
             if c0.conn is None and c0.svc.started:
                 choices += [["open", 0]] * 6
@@ -455,6 +497,10 @@ def guided(seed, n_ops, profile, welcome_error=None, finish_run=False):
                 # … and once peer messages have been processed: every re-open replays the whole mailbox
                 if c0.boss._M._processed and rng.random() < 0.5:
                     pdrop *= 3
+                # a budget of connection losses per walk, so that a walk does not degenerate into open/drop ping-pong
+                # and still makes progress between (bursts of) losses
+                if st.setdefault("drops", 0) >= st["drop_budget"]:
+                    pdrop = 1 if rng.random() < 0.05 else 0
                 choices += [["drop", 0]] * pdrop
                 if len(W.msg_frames(0)) >= 1 and rng.random() < 0.3:
                     choices += [["dupmsg", 0, rng.randrange(4)]]
@@ -537,9 +583,9 @@ def guided(seed, n_ops, profile, welcome_error=None, finish_run=False):
                     choices += [["open", p]] * 3
                 if cp.conn is not None:
                     if cp.conn.c2s:
-                        choices += [["c2s", p]] * 5
+                        choices += [["c2s", p]] * 8
                     if cp.conn.s2c:
-                        choices += [["s2c", p]] * 5
+                        choices += [["s2c", p]] * 8
                 if cp.eq._calls:
                     choices += [["turn", p]] * 2
                 if cp.svc.stopping is not None and not cp.svc.stopping.called:
@@ -552,9 +598,9 @@ def guided(seed, n_ops, profile, welcome_error=None, finish_run=False):
                         if profile == "set-mismatch":
                             pc = pc.split("-")[0] + "-wrong-words"
                         choices += [["api", p, "set_code", pc]] * 3
-                elif rng.random() < 0.1 and profile != "crowded":
-                    choices += [["api", p, "send", "aa%02x" % p]]
-                if rng.random() < 0.03:
+                elif st.setdefault("peer_sent", 0) < 3 and rng.random() < 0.3 and profile != "crowded":
+                    choices += [["api", p, "send", "aa%02x%02x" % (p, st["peer_sent"])]] * 2
+                if st["peer_started"][p] and len(ops) > n_ops * 0.5 and rng.random() < 0.02:
                     choices += [["api", p, "close"]]
             if not choices:
                 break
@@ -567,6 +613,8 @@ def guided(seed, n_ops, profile, welcome_error=None, finish_run=False):
                 continue
             op = rng.choice(choices)
             r = emit(op)
+            if op[0] == "drop" and op[1] == 0:
+                st["drops"] = st.get("drops", 0) + 1
             if op[0] == "api":
                 if op[1] == 0:
                     if op[2] in ("set_code", "allocate_code", "input_code") and r == "ok":
@@ -577,6 +625,12 @@ def guided(seed, n_ops, profile, welcome_error=None, finish_run=False):
                         st["sent"] += 1
                 elif op[2] == "set_code":
                     st["peer_started"][op[1]] = True
+                elif op[2] == "send":
+                    st["peer_sent"] = st.get("peer_sent", 0) + 1
+        if not finish_run and rng.random() < 0.6:
+            # most walks end cooperatively (the network heals, the application closes, everything owed is
+            # delivered), so that they reach a verdict; the rest stay wherever the walk left them
+            finish_run = True
         if finish_run:
             finish(W, ob, ops)
         summary = summarize(W, ob)
